@@ -1,5 +1,6 @@
 /- Driver/Countdown — C07 model driver: items set explicitly, callback at a given uptime -/
 import SuplaVerif.Model.Countdown
+import SuplaVerif.Model.Relay
 import SuplaVerif.Gen.Consts
 import Driver.Common
 namespace Driver.CountdownDrv
@@ -24,6 +25,17 @@ def step (s : St) (toks : List String) : St × List String :=
       let i : DurIn := { time2 := t2, newValue := v, dur := d, left := l, cdFlag := f == "1" }
       (s, [if i.arms then s!"DUR {i.eff} 1 {i.target}" else "DUR 0 0 -"])
     | _, _, _, _ => (s, ["BADOP"])
+  | ["relboot", lo, force, plain, reason, want] =>
+    -- a relay that was last switched to `want` and then restarted: what was remembered, the logical state after the boot
+    match reason.toNat? with
+    | some r =>
+      let c : RelayCfg := { loLevel := lo == "1" }
+      let sv := relaySaved (force == "1" || plain == "1") (want == "1")
+      let svs := match sv with
+        | some b => if b then "1" else "0"
+        | none => "-"
+      (s, [s!"RELBOOT saved={svs} logical={if logicalAfterBoot c (force == "1") (plain == "1") r (want == "1") then 1 else 0}"])
+    | none => (s, ["BADOP"])
   | ["cdcb", now] =>
     match now.toNat? with
     | some n =>
